@@ -46,6 +46,19 @@ def programs(tier):
     out.append(('attrs', doc({'tag': 'a', 'static': [['id', 'x'], ['class', 'c'], ['t', ['v', {'interp': py('1')}]]],
                               'attributes': [['class', py('L(1)')], ['title', py("'n'")]], 'onerror': fb,
                               'children': [L(0)]}), o3(0, 1)))
+    # dictionary-form tal:attributes on the guarded element (the fallback tag has the static attributes only;
+    # a failing dictionary expression is handled like any other failure of the element)
+    out.append(('dict-attrs', doc({'tag': 'a', 'attributes': [[None, py("{'title': L(1)}")]], 'onerror': fb,
+                                   'children': [L(0)]}), o3(0, 1)))
+    out.append(('dict-attrs-static', doc({'tag': 'a', 'static': [['class', 'c']],
+                                          'attributes': [[None, py("{'title': L(1)}")]], 'onerror': fb,
+                                          'children': [L(0)]}), o3(0, 1)))
+    out.append(('dict-attrs-nested', doc({'tag': 'o', 'onerror': fb2, 'children': [
+        'pre', {'tag': 'a', 'attributes': [[None, py("{'title': L(1)}")]], 'onerror': fb, 'children': [L(0)]}, 'post']}),
+        o3(0, 1)))
+    # the guarded element is also a macro definition (rendered in place)
+    out.append(('on-macro-definition', doc({'tag': 'a', 'define_macro': 'm', 'onerror': fb, 'children': ['p', L(0), 'q']}),
+                o3(0)))
     out.append(('fallback-fails', doc({'tag': 'a', 'onerror': fb, 'children': [
         {'tag': 'b', 'onerror': ['text', py('L(1)')], 'children': [L(0)]}, 'after']}), o3(0, 1)))
     out.append(('content', doc({'tag': 'a', 'content': ['text', py('L(0)')], 'onerror': fb, 'children': ['x']}),
